@@ -268,7 +268,13 @@ class _EvaluatorCompiler:
             elif left_val is None or right_val is None:
                 return None
 
-            return operator(eval_left(obj), eval_right(obj))
+            try:
+                return operator(left_val, right_val)
+            except ZeroDivisionError:
+                # the evaluator only runs after the statement succeeded in
+                # the database; backends that accept x / 0 and x % 0
+                # (SQLite, MySQL) produce NULL
+                return None
 
         return evaluate
 
